@@ -214,9 +214,15 @@ def run(scenario, params, tape, detail=False):
                 ncp.emit(genuine, 0.0, "rsp", req.seq)
                 await asyncio.sleep(0.2)
                 if not call.done():
+                    # the call lost its registration to the bad frame (allowed): it must then run into the command timeout like any unanswered
+                    # command, and give the command slot back - "commands issued afterwards still complete normally"
                     probe("pending_call_timed_out_after_bad_frame")
-                    call.cancel()
-                    await asyncio.sleep(0.01)
+                    await asyncio.wait([call], timeout=10.5)
+                    if not call.done():
+                        viol.append(("C08.after", "pending-command-never-ended", f"v{V}: getValue (seq {req.seq}) whose registration was consumed by {what} frame {data.hex()} had neither returned nor timed out "
+                                     f"10.9 s after it was issued; every later command waits behind it"))
+                        call.cancel()
+                        await asyncio.sleep(0.01)
                 elif call.exception() is None:
                     r = call.result()
                     if bytes(r[1]) != genuine[-len(bytes(r[1])):] if len(bytes(r[1])) else False:
